@@ -31,6 +31,9 @@
 #include <parmcb/forestindex.hpp>
 #include <parmcb/spvecgf2.hpp>
 #include <parmcb/util.hpp>
+#ifdef PARMCB_VERIF
+#include <parmcb/detail/verif_hooks.hpp>
+#endif
 
 namespace parmcb {
 
@@ -49,6 +52,9 @@ namespace parmcb {
             }
 
             std::tuple<std::set<Edge>, WeightType, bool> find(const SpVecGF2<std::size_t> &support) {
+#ifdef PARMCB_VERIF
+                verif_phase++;
+#endif
                 std::set<Edge> signed_edges;
                 convert_edges(support, std::inserter(signed_edges, signed_edges.end()), forest_index);
                 if (signed_edges.size() == 1) {
@@ -67,6 +73,10 @@ namespace parmcb {
                 auto se_u = boost::target(se, g);
                 auto res = bidirectional_signed_dijkstra(g, weight_map, std::set<Edge> { }, std::set<Edge> { se }, true,
                         se_v, true, se_u, true, std::get<2>(best), std::get<1>(best));
+#ifdef PARMCB_VERIF
+                parmcb::verif::report_search(verif_phase - 1, true, forest_index(se), std::set<Edge> { se }, forest_index,
+                        std::get<2>(best), std::get<1>(best), std::get<2>(res), std::get<1>(res), true);
+#endif
                 if (std::get<2>(res) && std::get<0>(res).find(se) == std::get<0>(res).end()) {
                     std::get<1>(res) += boost::get(weight_map, se);
                     if (!std::get<2>(best) || compare(std::get<1>(res), std::get<1>(best))) {
@@ -103,6 +113,11 @@ namespace parmcb {
                                 auto res = bidirectional_signed_dijkstra(g, weight_map, signed_edges,
                                         std::set<Edge> { }, use_hidden_edges, v, true, v, false,
                                         std::get<2>(running_min), std::get<1>(running_min));
+#ifdef PARMCB_VERIF
+                                parmcb::verif::report_search(verif_phase - 1, false, boost::get(boost::vertex_index, g, v),
+                                        std::set<Edge> { }, forest_index, std::get<2>(running_min),
+                                        std::get<1>(running_min), std::get<2>(res), std::get<1>(res));
+#endif
                                 if (std::get<2>(res)
                                         && (!std::get<2>(running_min)
                                                 || compare(std::get<1>(res), std::get<1>(running_min)))) {
@@ -155,6 +170,11 @@ namespace parmcb {
                                 auto res = bidirectional_signed_dijkstra(g, weight_map, signed_edges, hidden_edges,
                                         true, se_v, true, se_u, true, std::get<2>(running_min),
                                         std::get<1>(running_min));
+#ifdef PARMCB_VERIF
+                                parmcb::verif::report_search(verif_phase - 1, true, forest_index(se), hidden_edges,
+                                        forest_index, std::get<2>(running_min), std::get<1>(running_min),
+                                        std::get<2>(res), std::get<1>(res));
+#endif
                                 if (std::get<2>(res) && std::get<0>(res).find(se) == std::get<0>(res).end()) {
                                     std::get<1>(res) += boost::get(weight_map, se);
                                     if (!std::get<2>(running_min)
@@ -174,6 +194,9 @@ namespace parmcb {
             const ForestIndex<Graph> &forest_index;
             const std::vector<Vertex> &vertices;
             const std::less<WeightType> compare;
+#ifdef PARMCB_VERIF
+            std::size_t verif_phase = 0;
+#endif
         };
 
     }
